@@ -35,9 +35,13 @@ type login struct {
 }
 
 // c06Login obtains one login redirect through the shipped entry point and returns its values.
-func c06Login(w *sim.World) login {
+func c06Login(w *sim.World, cookie ...string) login {
 	var l login
 	req := sim.Req{Scheme: "https", Host: w.AppHost, Path: "/app"}
+	if len(cookie) > 0 && cookie[0] != "" {
+		// the browser still holds the cookie of an earlier, unfinished login (or one planted by somebody else)
+		req.Headers = map[string]string{"cookie": w.CookieName() + "=" + cookie[0]}
+	}
 	l.t0 = time.Now()
 	r := w.Check(req)
 	l.t1 = time.Now()
@@ -239,11 +243,17 @@ func c06Derivations(c *sim.Case) {
 	defer w.Close()
 	n := 3 + sim.Pick(c, "logins", 6)
 	var ls []login
+	carried := 0
 	for i := 0; i < n; i++ {
-		ls = append(ls, c06Login(w))
+		prev := ""
+		if i > 0 && sim.Bool(c, "carry-cookie") {
+			prev = ls[sim.Pick(c, "carry-from", i)].id
+			carried++
+		}
+		ls = append(ls, c06Login(w, prev))
 	}
 	for i, l := range ls {
-		for j := i - 1; j <= i+1; j++ {
+		for j := 0; j < len(ls); j++ {
 			if j < 0 || j >= len(ls) {
 				continue
 			}
@@ -278,7 +288,10 @@ func c06Derivations(c *sim.Case) {
 		}
 	}
 	c.NonTrivial()
-	c.FP("deriv", n)
+	if carried > 0 {
+		c.Class("derivations:cookie-of-unfinished-login-carried")
+	}
+	c.FP("deriv", n, carried)
 	c.Class("attack:derivations")
 }
 
@@ -353,6 +366,56 @@ func c06Birthday(n int) func(c *sim.Case) {
 		c.NonTrivial()
 		c.FP("birthday", n)
 		c.Class("attack:birthday")
+	}
+}
+
+// c06Parallel: logins that run at the same time through ONE assembled filter must not share identifier material:
+// no two identifiers equal, no run of 12 characters of one found in another (chance: about 1e-11 per run).
+func c06Parallel(n int) func(c *sim.Case) {
+	return func(c *sim.Case) {
+		w := sim.NewWorld(c, sim.WorldOpts{ViaServer: true})
+		defer w.Close()
+		nw := 2 * runtime.GOMAXPROCS(0)
+		out := make([][]login, nw)
+		var wg sync.WaitGroup
+		for wkr := 0; wkr < nw; wkr++ {
+			wg.Add(1)
+			go func(wkr int) {
+				defer wg.Done()
+				for i := wkr; i < n; i += nw {
+					out[wkr] = append(out[wkr], c06Login(w))
+				}
+			}(wkr)
+		}
+		wg.Wait()
+		const run = 12
+		type src struct {
+			kind string
+			w, i int
+		}
+		seen := make(map[string]src, n*100)
+		total := 0
+		for wk, ls := range out {
+			for i, l := range ls {
+				total++
+				for kind, v := range map[string]string{"session-id": l.id, "state": l.state, "nonce": l.nonce} {
+					if len(v) < 16 {
+						c.Violation("no-identifiers", "login redirect with a %s of %d characters", kind, len(v))
+					}
+					for k := 0; k+run <= len(v); k++ {
+						g := v[k : k+run]
+						if p, dup := seen[g]; dup && !(p.w == wk && p.i == i && p.kind == kind) {
+							c.Violation("parallel-logins-share-material", "the %s of one login and the %s of another, issued while %d logins ran in parallel, share the run %q", kind, p.kind, nw, g)
+						}
+						seen[g] = src{kind, wk, i}
+					}
+				}
+			}
+		}
+		c.Logf("%d logins by %d parallel workers through one filter: no identifier shares a %d-character run with another", total, nw, run)
+		c.NonTrivial()
+		c.FP("parallel", n)
+		c.Class("attack:parallel-logins")
 	}
 }
 
@@ -597,12 +660,12 @@ func sameSet(a, b map[int]bool) bool {
 func TestC06(t *testing.T) {
 	r := sim.NewRun(t, "C06")
 	defer r.Finish()
-	r.Rule = "attack instances against identifiers obtained through server.ExtAuthZFilter.Check: (1) seed-window attack - for each login, every seed derivable from the request time window (+ drawn slack) in ns/us/ms/s for math/rand v1 (Intn, Int63%n) and math/rand/v2 PCG constructions and 6 stream orders is tried against the public state/nonce, and a match's predicted session id is compared with the cookie; (2) birthday search over N concurrently built generators (any equal ids/states/nonces, across kinds) plus an entropy floor; (3) lagged-Fibonacci stream-continuity predictor over successive logins; (4) derivations (identity, reverse, SHA-1/SHA-256/MD5 in hex/base64/base64url) of the public values and of earlier/later ids. Non-trivial = an attack instance ran its full candidate set; distinct = distinct (attack, parameters)."
+	r.Rule = "attack instances against identifiers obtained through server.ExtAuthZFilter.Check: (1) seed-window attack - for each login, every seed derivable from the request time window (+ drawn slack) in ns/us/ms/s for math/rand v1 (Intn, Int63%n) and math/rand/v2 PCG constructions and 6 stream orders is tried against the public state/nonce, and a match's predicted session id is compared with the cookie; (2) birthday search over N concurrently built generators (any equal ids/states/nonces, across kinds) plus an entropy floor; (3) lagged-Fibonacci stream-continuity predictor over successive logins; (4) derivations (identity, reverse, SHA-1/SHA-256/MD5 in hex/base64/base64url) of the public values and of earlier/later ids, over logins that may carry the cookie of an earlier unfinished login; (5) entropy ownership - crypto/rand.Reader is replaced by a harness-owned stream, every byte read during two successive logins is flipped in turn to find what each value depends on, then every byte that no disclosed value depends on is re-drawn: an identifier that stays is a function of what is disclosed; one with fewer than 8 bytes of its own has less than 64 bits; (6) 6000 [60000] logins by 2 x GOMAXPROCS parallel workers through one assembled filter must not share any 12-character run. Non-trivial = an attack instance ran its full candidate set; distinct = distinct (attack, parameters)."
 	r.Assumptions = []string{
 		"the predictors are sound (a hit is a demonstrated prediction) but incomplete: a weak construction outside the family passes",
 		"the static clause of the statement (every code path that can produce an identifier) is approximated by attacking identifiers from the shipped entry point",
 	}
-	parts := map[string]func(*sim.Case){"window": c06Window, "derivations": c06Derivations, "birthday": c06Birthday(300000), "birthday-thorough": c06Birthday(3000000), "stream": c06Stream, "entropy": c06Entropy}
+	parts := map[string]func(*sim.Case){"window": c06Window, "derivations": c06Derivations, "birthday": c06Birthday(300000), "birthday-thorough": c06Birthday(3000000), "stream": c06Stream, "entropy": c06Entropy, "parallel": c06Parallel(6000), "parallel-thorough": c06Parallel(60000)}
 	if r.Replay != "" {
 		r.ReplayFile(parts)
 		return
@@ -611,7 +674,12 @@ func TestC06(t *testing.T) {
 	r.Loop("window", r.N(12, 60), c06Window)
 	r.Loop("derivations", r.N(20, 200), c06Derivations)
 	r.Loop("stream", r.N(2, 10), c06Stream)
-	r.Loop("entropy", r.N(3, 30), c06Entropy)
+	r.Loop("entropy", r.N(4, 40), c06Entropy)
+	if r.Thorough() {
+		r.Loop("parallel-thorough", 1, parts["parallel-thorough"])
+	} else {
+		r.Loop("parallel", 1, parts["parallel"])
+	}
 	if r.Thorough() {
 		r.Loop("birthday-thorough", 1, parts["birthday-thorough"])
 	} else {
